@@ -5,6 +5,7 @@ from mc import lattice, oracles as O, pairs
 from mc.common import TOL, U
 from mc.runner import Result
 from mc import backend
+from mc.measures import bivariate_forms
 
 ID = "C01"
 LEVEL = "model_checking"
@@ -74,6 +75,21 @@ def evaluate(r, trains, edges, mrts, be, rank=()):
                     "piece values differ from |v1-v2|/max(v1,v2,MRTS)", rank)
         return
     r.outcomes.add(tuple(round(v, 9) for v in yf))
+    # the same bivariate profile through the list and `indices` call forms
+    try:
+        for fname, q in bivariate_forms(spk.isi_profile, st1, st2, edges, MRTS=mrts):
+            if list(np.asarray(q.x, float)) != xf or len(q.y) != len(yf) or \
+                    not all(abs(a - b) <= TOL for a, b in zip(np.asarray(q.y, float), yf)):
+                r.violation(ID, "isi_profile.form", be, "isi_profile.form/%s/%s" % (be, cls),
+                            dict(case, form=fname), {"x": xf, "y": yf}, {"x": q.x, "y": q.y},
+                            "the profile of the two trains obtained through call form %s differs "
+                            "from the definition" % fname, rank)
+                return
+    except Exception as e:
+        r.violation(ID, "isi_profile.form", be, "isi_profile.form.exception/%s/%s" % (be, cls),
+                    case, "a profile", "%s: %s" % (type(e).__name__, e),
+                    "a list / indices call form raised", rank)
+        return
     try:
         d = float(spk.isi_distance(st1, st2, MRTS=mrts))
     except Exception as e:
